@@ -148,7 +148,10 @@ func (this *ClientImpl) NewAccount(label string, typeCode keypair.KeyType, curve
 	}
 	address := types.AddressFromPubKey(pubkey)
 	addressBase58 := address.ToBase58()
-	prvSecret, err := keypair.EncryptPrivateKey(prvkey, addressBase58, passwd)
+	this.lock.RLock()
+	scryptParam := this.walletData.Scrypt
+	this.lock.RUnlock()
+	prvSecret, err := keypair.EncryptWithCustomScrypt(prvkey, addressBase58, passwd, scryptParam)
 	if err != nil {
 		return nil, fmt.Errorf("encryptPrivateKey error:%s", err)
 	}
